@@ -111,6 +111,12 @@ type sliceDotsSearch struct {
 	// Without it a list in which the last section occurs nowhere is
 	// searched once for every way of placing the sections before it.
 	failed map[sliceDotsPlace]struct{}
+
+	// Numbers the captures that the places refer to. A capture is known
+	// by the address of its token; holding on to the tokens here keeps
+	// an address from being given to a later capture while an earlier
+	// one is remembered under it.
+	captures map[*int]int
 }
 
 // sliceDotsPlace is Sections[si:] against got[idx:], with the values that
@@ -126,7 +132,15 @@ func (s *sliceDotsSearch) place(si, idx int, d data.Data) sliceDotsPlace {
 	for _, name := range s.metavars[si] {
 		var md metavarData
 		if data.Lookup(d, metavarKey(name), &md) {
-			fmt.Fprintf(&captured, "%s=%p;", name, md.capture)
+			id, ok := s.captures[md.capture]
+			if !ok {
+				if s.captures == nil {
+					s.captures = make(map[*int]int)
+				}
+				id = len(s.captures) + 1
+				s.captures[md.capture] = id
+			}
+			fmt.Fprintf(&captured, "%s=%d;", name, id)
 		}
 	}
 	return sliceDotsPlace{si: si, idx: idx, captured: captured.String()}
